@@ -1,16 +1,16 @@
 SPECIFICATION Spec
 CONSTANTS
-  Helper = "MC"
-  Mode = "with"
-  Prims <- McTimed
+  Helper = "PHC"
+  Mode = "explicit"
+  Prims <- HlCycle
   MaxLen = 3
-  DH = 300
+  DH = 500
   DV = 500
-  DL = 0
+  DL = 200
   Period = 200
-  X0 = 0
-  Y0 = 0
-  Z0 = 0
+  X0 = 1000
+  Y0 = 500
+  Z0 = 200
   Lats = {}
   MaxLat = 0
   Bug = "none"
